@@ -75,6 +75,9 @@ def build_harness(cx, race=False):
         shutil.copy(os.path.join(REPO, "go.sum"), os.path.join(HARNESS, "go.sum"))
     if race:
         cmd.insert(2, "-race")
+    if os.environ.get("VERIF_COVER"):
+        # diagnostic: statement coverage of the library under the drivers (GOCOVERDIR must be set by the caller)
+        cmd[2:2] = ["-cover", "-coverpkg=verif/harness/...,github.com/jeroenrinzema/psql-wire/..."]
     cmd.append("./cmd/pgverif")
     t = time.time()
     p = sh(cmd, cwd=HARNESS, env=GOENV, timeout=900, check=False)
